@@ -427,24 +427,30 @@ func (c *Ctx) c06DuplicateOutputsByKey(rule string) {
 		return
 	}
 	fk := c.P.FuncKey(f)
-	o := c.P.OriginsOf(f)
 	el := "elem(P:" + f.Params[0].Name() + ")"
 	var keys []string
-	for _, b := range f.Blocks {
-		for _, in := range b.Instrs {
-			switch x := in.(type) {
-			case *ssa.MapUpdate:
-				keys = append(keys, o.Of(x.Key).String())
-			case *ssa.Lookup:
-				if _, isMap := x.X.Type().Underlying().(*types.Map); isMap {
-					keys = append(keys, o.Of(x.Index).String())
+	// (the test itself, or a helper that is new on this tree - also a generic one taking the key function -
+	// read with this caller's arguments)
+	for _, o := range c.OpContexts(f) {
+		if o.Fn.Parent() != nil {
+			continue
+		}
+		for _, b := range o.Fn.Blocks {
+			for _, in := range b.Instrs {
+				switch x := in.(type) {
+				case *ssa.MapUpdate:
+					keys = append(keys, o.Of(x.Key).String())
+				case *ssa.Lookup:
+					if _, isMap := x.X.Type().Underlying().(*types.Map); isMap {
+						keys = append(keys, o.Of(x.Index).String())
+					}
 				}
 			}
 		}
-	}
-	for _, e := range o.AllEdges() {
-		if ft := o.EdgeFact(e); ft != nil && ft.Kind == "cmp" && ft.Op.String() == "==" && (strings.Contains(ft.A.String(), el) || strings.Contains(ft.B.String(), el)) {
-			keys = append(keys, ft.A.String(), ft.B.String())
+		for _, e := range o.AllEdges() {
+			if ft := o.EdgeFact(e); ft != nil && ft.Kind == "cmp" && ft.Op.String() == "==" && (strings.Contains(ft.A.String(), el) || strings.Contains(ft.B.String(), el)) {
+				keys = append(keys, ft.A.String(), ft.B.String())
+			}
 		}
 	}
 	if len(keys) == 0 {
